@@ -643,9 +643,12 @@ namespace xsimd
         XSIMD_INLINE batch<std::complex<T_out>, A> load_complex_aligned(std::complex<T_in> const* mem, convert<std::complex<T_out>>, requires_arch<generic>) noexcept
         {
             using real_batch = batch<T_out, A>;
+            // the second register starts real_batch::size memory elements further, which is a whole register
+            // further only if memory and register elements have the same size
+            using second_mode = typename std::conditional<sizeof(T_in) == sizeof(T_out), aligned_mode, unaligned_mode>::type;
             T_in const* buffer = reinterpret_cast<T_in const*>(mem);
             real_batch hi = real_batch::load_aligned(buffer),
-                       lo = real_batch::load_aligned(buffer + real_batch::size);
+                       lo = real_batch::load(buffer + real_batch::size, second_mode {});
             return detail::load_complex(hi, lo, A {});
         }
 
@@ -667,9 +670,11 @@ namespace xsimd
             using real_batch = batch<T_in, A>;
             real_batch hi = detail::complex_high(src, A {});
             real_batch lo = detail::complex_low(src, A {});
+            // see load_complex_aligned: the second half is register-aligned only for same-size elements
+            using second_mode = typename std::conditional<sizeof(T_in) == sizeof(T_out), aligned_mode, unaligned_mode>::type;
             T_out* buffer = reinterpret_cast<T_out*>(dst);
             lo.store_aligned(buffer);
-            hi.store_aligned(buffer + real_batch::size);
+            hi.store(buffer + real_batch::size, second_mode {});
         }
 
         // store_complex_unaligned
